@@ -2,7 +2,7 @@ SPEC = {
     'id': 'C24',
     'harness': 'hC24',
     'coq_dir': 'C24',
-    'claimed': False,
+    'claimed': True,
     'theorems': [
         'C24_refines_sorted_list', 'C24_order', 'C24_fifo_ties', 'C24_capacity', 'C24_no_duplicates',
         'C24_observers_agree', 'C24_push_rule', 'C24_reject_unchanged', 'C24_remove_rule',
